@@ -5,9 +5,12 @@
 (* table, alone and twice in a row followed by the helper call of its handler, the      *)
 (* bytestream with unflushed bytes is reached for both carriers and consistent with     *)
 (* the local state of the run protocol, labels are unique, every item of every          *)
-(* sequence is a known stanza or application action; (2) the run protocol: TypeOK,      *)
-(* C09_NoFeedAfterReturn and, under the fairness the property demands of the library,   *)
-(* C09_Terminates.                                                                      *)
+(* sequence is a known stanza or application action; the identity of the session (kind  *)
+(* x class of the local address, incl. the session WITHOUT an address for every kind)   *)
+(* is crossed with the addressing of the stanzas (C09_EverySessionCrossed); (2) the run *)
+(* protocol in every life of a session (fresh, closed before Serve, served again, never *)
+(* served): TypeOK, C09_NoFeedAfterReturn, C09_ServeSequential and, under the fairness  *)
+(* the property demands of the library, C09_Terminates.                                 *)
 EXTENDS PeerInput
 
 ASSUME C09_EveryTableStateReachable
@@ -18,7 +21,9 @@ ASSUME C09_EveryTargetCovered
 ASSUME C09_EveryConfigCrossed
 ASSUME C09_ClassesDisjoint
 ASSUME C09_LocalStateCrossed
-ASSUME PrintT(<<"GRAMMAR", Cardinality(Targets), Cardinality(Alphabet), NSeqScenarios,
-                Cardinality(Helpers), Cardinality(ReplyScenarios)>>)
+ASSUME C09_EverySessionCrossed
+ASSUME PrintT(<<"GRAMMAR", Cardinality(Targets), Cardinality(Alphabet) + Cardinality(AddrLabelled), NSeqScenarios,
+                Cardinality(Helpers), Cardinality(ReplyScenarios) + Cardinality(SessReplyScenarios)>>)
+ASSUME PrintT(<<"SESSIONS", Cardinality(Sessions), Cardinality(SessSingles), Cardinality(LifeSeqs), Cardinality(SessReplies), Cardinality(LifeReplies)>>)
 ASSUME PrintT(<<"SETUPS", [f \in Stateful |-> Cardinality(SetupsOK(f, Depth(f)))]>>)
 =============================================================================
